@@ -11,6 +11,7 @@ WALL = {"quick": 150, "thorough": 1500}
 RULE = ("seeded operation histories (5-40 ops quick, 5-60 thorough) generated from VERIF_SEED*1e6+i by label-keyed choices; "
         "each op is executed on a real StorageServer and on a reference model and compared, plus whole-state cross-checks after "
         "every op; a run is non-trivial when >=3 distinct probe kinds fired; distinct = distinct (op-kind sequence, probe-count) fingerprint")
+RULE += '; plus bursts of 3-9 leases (extra-lease area), test vectors with specimens shorter than the tested range'
 TECHNIQUE = "deterministic simulation: seeded operation/fault histories vs executable reference model, simulated clock"
 LEVEL_TEXT = ("seeded search over operation histories with a step-by-step reference model; sampling, not enumeration — "
               "a clean batch is evidence, not proof")
